@@ -337,6 +337,29 @@ def check_casts(res):
             res.violation(f'h18:cast:date-ymd:{type(e).__name__}', 'type casts return the converted value or NULL, never an error', {'y': y, 'm': m, 'd': dd}, f'{type(e).__name__}: {e}', 'date or NULL')
 
 
+def check_pattern_sharing(res):
+    """functions that take the same pattern text with different matching rules (has_account ignores case, grep / grepn / subst /
+    findfirst do not) do not influence one another, whichever is evaluated first"""
+    from harness import ledger
+    c = ledger.connect()
+    for pat, first in (('expenses:food', 'has_account'), ('assets:bank', 'grep'), ('income:salary', 'has_account'), ('equity:opening', 'subst')):
+        res.case(('pattern-sharing', pat, first))
+        stmts = {'has_account': f"SELECT count(*) FROM #entries WHERE has_account('{pat}')",
+                 'grep': f"SELECT DISTINCT grep('{pat}', account) FROM #postings",
+                 'subst': f"SELECT DISTINCT subst('{pat}', 'X', account) = account FROM #postings"}
+        order = [first] + [k for k in stmts if k != first]
+        try:
+            got = {k: c.execute(stmts[k]).fetchall() for k in order}
+        except Exception as e:  # noqa
+            res.violation('h18:pattern-sharing:' + pat, 'statements execute', {'pattern': pat, 'first': first}, f'{type(e).__name__}: {e}', 'rows')
+            continue
+        # account names are capitalised: a lower-case pattern matches only where case is ignored
+        ok = got['has_account'][0][0] > 0 and got['grep'] == [(None,)] and got['subst'] == [(True,)]
+        if not ok:
+            res.violation('h18:pattern-sharing:' + pat, 'has_account matches ignoring case; grep / subst with the same pattern text stay case-sensitive (and vice versa), in any order of evaluation',
+                          {'pattern': pat, 'evaluated_first': first}, {k: v[:2] for k, v in got.items()}, {'has_account': '> 0', 'grep': [(None,)], 'subst': [(True,)]})
+
+
 def run(tier, seed):
     res = Result('exhaustive on the property domain: every date 1900-01-01..2100-12-31 x every truncation unit / part field / small day offsets; strides x origins grid for '
                  'date_bin; all account names of 1-5 components over the five roots (3-letter component alphabet); all strings of length <= 4 over a 4-letter '
@@ -354,6 +377,7 @@ def run(tier, seed):
     check_bins(res, tier)
     check_accounts(res)
     check_strings(res)
+    check_pattern_sharing(res)
     check_numeric(res)
     check_casts(res)
     res.exhaustive = True
